@@ -1111,6 +1111,9 @@ def _card_arr(I, arr, depth):
     if k == z3.Z3_OP_CONST_ARRAY and z3.is_false(arr.arg(0)):
         return z3.IntVal(0)
     c = CARD(arr)
+    # from here on the path depends on an under-constrained abstraction: a counter-model found on it may be spurious, so a
+    # `sat` verdict on this path is reported as undecided, never as refuted (engine/vc.py)
+    I.path.notes.add("ABSTRACT-CARD: cardinality of a set term abstracted by an uninterpreted function (sound axioms, incomplete)")
     I.path.assume(c >= 0)
     I.path.assume((c == 0) == (arr == EMPTY))
     if depth > 6:
